@@ -6,7 +6,7 @@ import checklib as C
 import buildgen
 from props import common, c06diag
 
-MODULE = "Rspirv.Props.C06End"
+MODULE = "Rspirv.Props.C06Typed"
 THEOREMS = ["Rspirv.Props.C06.methods_ok", "Rspirv.Props.C06.wrappers_ok", "Rspirv.Props.C06.walk_sound",
             "Rspirv.Props.C06.C06_methods", "Rspirv.Props.C06.C06_terminators", "Rspirv.Props.C06.terminators_covered"] + \
            ["Rspirv.Props.Reload." + n for n in ("run_fn", "run_sects", "load_canon")] + \
@@ -16,7 +16,11 @@ THEOREMS = ["Rspirv.Props.C06.methods_ok", "Rspirv.Props.C06.wrappers_ok", "Rspi
                                                    "C06_canon", "step_hdr", "run_hdr", "finish_hdr")] + \
            ["Rspirv.Props.C06End." + n for n in ("struct_ok", "default_version_normal", "reflect_keys", "classify_row",
                                                  "method_plain", "hand_entry", "hand_plain", "C06_roundtrip", "C06_scope")] + \
-           ["Rspirv.Props.C06Round.plainRunB_sound", "Rspirv.Props.RoundTrip.grammarStreamB_sound"]
+           ["Rspirv.Props.C06Round.plainRunB_sound", "Rspirv.Props.RoundTrip.grammarStreamB_sound"] + \
+           ["Rspirv.Props.C06Typed." + n for n in ("loopT_indep", "instT_indep", "typed_track", "typedAll_stream",
+                                                   "C06_roundtrip_typed", "many_loopT", "groups_loopT", "call_typed",
+                                                   "collect_flatten")] + \
+           ["Rspirv.Props.C02Typed.typed_spec", "Rspirv.Props.C02TypedInst.typedStream_grammar"]
 NEEDS = ("header", "core", "decode", "operand_enum", "asm_arms", "parse_operand", "operands", "builder", "traversals")
 
 
@@ -27,7 +31,7 @@ def run(ctx):
         have = C.need(ctx, *NEEDS)
         failing = C.prove(ctx, MODULE, THEOREMS, extra_targets=["driver"],
                           files=["Rspirv/Props/C06.lean", "Rspirv/Generic/Method.lean", "Rspirv/Props/Reload.lean", "Rspirv/Props/RoundTrip.lean",
-                                 "Rspirv/Props/C06Round.lean", "Rspirv/Props/C06End.lean", "Rspirv/Model/Builder.lean",
+                                 "Rspirv/Props/C06Round.lean", "Rspirv/Props/C06End.lean", "Rspirv/Props/C06Typed.lean", "Rspirv/Props/C02Typed.lean", "Rspirv/Props/C02TypedInst.lean", "Rspirv/Model/Typed.lean", "Rspirv/Model/Builder.lean",
                                  "Rspirv/Model/BuilderHand.lean", "Rspirv/Instances.lean"]) if have else []
     if not hok or ext is None:
         ctx.issue("harness-build", "the harness no longer builds against the working tree: " + (herr or ctx.data.get("harness_error", ""))[-400:])
